@@ -22,7 +22,7 @@ PROFILES = ["bitfield", "array", "payload", "optional", "inherit", "enum", "grou
 SCALAR_WIDTHS = [1, 2, 3, 4, 5, 7, 8, 8, 9, 12, 15, 16, 16, 17, 23, 24, 24, 25, 31, 32, 32, 33, 40,
                  47, 48, 55, 56, 57, 63, 64]
 BYTE_WIDTHS = [8, 8, 16, 16, 24, 32, 40, 48, 56, 64]
-ENUM_BYTE_WIDTHS = [8, 8, 16, 24, 32, 64]
+ENUM_BYTE_WIDTHS = [8, 16, 24, 24, 32, 40, 48, 56, 64]
 
 # identifiers that exercise lexing edges (keyword prefixes) but are legal
 ODD_NAMES = ["enumx", "packet_", "structure", "groupie", "testy", "iff", "custom_fieldx", "checksums",
@@ -554,7 +554,35 @@ def p_payload(ctx):
 
 def p_optional(ctx):
     rng = ctx.rng
-    for _ in range(rng.randint(4, 6)):
+    # optional scalars and enums at every whole-octet width, in a child under a sized payload and
+    # as element of a size-delimited array (their length feeds the enclosing size fields)
+    w1, w2 = rng.sample([24, 40, 48, 56], 2)
+    eid, _ = gen_enum(ctx, width=w1)
+    b = Body(ctx)
+    f1, f2 = b.flag(), b.flag()
+    b.align()
+    b.fields.append(A.typedef(ctx.fid(), eid, cond=A.constraint(f1, value=rng.choice([0, 1]))))
+    b.fields.append(A.scalar(ctx.fid(), w2, cond=A.constraint(f2, value=1)))
+    sid = ctx.uid("S")
+    ctx.decls.append(A.struct(sid, b.fields))
+    ctx.structs[sid] = "dynamic"
+    b = Body(ctx)
+    add_array(ctx, b, 0, shapes=["size"], elems=["dynamic"], allow_pad=False, allow_es=False)
+    ctx.decls.append(A.packet(ctx.uid("P"), b.fields))
+    b = Body(ctx)
+    k = b.scalar(8)
+    add_payload(ctx, b, sized=True, modifier=0)
+    rid = ctx.uid("R")
+    ctx.decls.append(A.packet(rid, b.fields))
+    b = Body(ctx)
+    f1 = b.flag()
+    b.align()
+    eid2, _ = gen_enum(ctx, width=w2)
+    b.fields.append(A.typedef(ctx.fid(), eid2, cond=A.constraint(f1, value=1)))
+    b.scalar(8)
+    ctx.decls.append(A.packet(ctx.uid("C"), b.fields, parent_id=rid, constraints=[A.constraint(k, value=rng.randint(0, 255))]))
+    ctx.features.add("inherit")
+    for _ in range(rng.randint(3, 5)):
         b = Body(ctx)
         b.maybe_noise(0.4)
         add_optional(ctx, b, 0)
@@ -707,6 +735,17 @@ def p_size_children(ctx):
             flds.append(A.scalar(ctx.fid(), 8 * w))
             left -= w
         ctx.decls.append(A.packet(ctx.uid("C"), flds, parent_id=rid, constraints=cons))
+    # siblings outside the size-discriminated group: a distinct constraint with a body of unknown
+    # size, and one with a payload of its own and a grandchild
+    k = rng.random()
+    if k < 0.7:
+        ctx.decls.append(A.packet(ctx.uid("C"), [A.array(ctx.fid(), width=rng.choice([8, 16]))], parent_id=rid,
+                                  constraints=[A.constraint(d, value=200)]))
+    if k > 0.4:
+        mid = ctx.uid("C")
+        ctx.decls.append(A.packet(mid, [A.scalar(ctx.fid(), 8), A.payload()], parent_id=rid,
+                                  constraints=[A.constraint(d, value=201)]))
+        ctx.decls.append(A.packet(ctx.uid("C"), [A.scalar(ctx.fid(), 16)], parent_id=mid))
     ctx.features.add("size_children")
     ctx.features.add("inherit")
 
